@@ -1,0 +1,30 @@
+//go:build verif
+
+package governance
+
+// Machine-checked contracts (govc, see /verif/DESIGN.md). Comment-only file.
+
+//@ fileprops C36
+
+// newAlphabetList: what can be decided without a counting argument. The proposed list never
+// exceeds the current size, the number of accepted new main-network keys never exceeds
+// floor((n-1)/3), a list is proposed only if at least one new key was accepted, and the two
+// error cases. (Size equality, uniqueness and membership need cardinalities: bounded
+// stand-in /verif/bounded/C36.)
+//@ func newAlphabetList
+//@   loop 2 invariant ln == len(fsChain) && ln > 0 && newNodeLimit == (ln - 1) / 3
+//@   loop 2 invariant 0 <= newNodes && newNodes <= newNodeLimit && len(result) <= ln && newNodes <= len(result)
+//@   loop 3 invariant len(result) <= ln && newNodes > 0 && newNodes <= (ln - 1) / 3 && ln == len(fsChain)
+//@   ensures [empty_current_alphabet_is_an_error] len(fsChain) == 0 ==> err != nil
+//@   ensures [short_main_network_list_is_an_error] len(mainnet) < len(fsChain) ==> err != nil
+//@   ensures [never_larger_than_current] err == nil ==> len(res0) <= len(fsChain)
+//@   ensures [at_most_one_third_new] err == nil ==> newNodes <= (len(fsChain) - 1) / 3
+//@   ensures [proposed_only_when_changed] err == nil && len(res0) > 0 ==> newNodes > 0
+
+// updateInnerRing: the lists must pair up, and the result never has more keys than the
+// old inner ring (every old key yields at most one key).
+//@ func updateInnerRing
+//@   loop 1 invariant 0 <= len(result) && len(result) <= rangeindex + 1 && rangeindex + 1 <= len(innerRing) && lnBefore == len(before) && lnBefore == len(after)
+//@   loop 2 invariant len(result) <= i && i < len(innerRing) && lnBefore == len(before) && lnBefore == len(after)
+//@   ensures [lists_must_pair_up] len(before) != len(after) ==> err != nil
+//@   ensures [not_larger_than_old_inner_ring] err == nil ==> len(res0) <= len(innerRing)
